@@ -1,5 +1,4 @@
-import FitProps.Links
-import FitProps.DecHistLemmas
+import FitProps.LinkLemmasHistRec
 /-!
 LINK (C) ↔ (D'): the API state machine `FitModel/DecoderApi.lean` (`DecApi.run`, the object of C03 / C07) against the history
 programs of `FitModel/DecHist.lean` (the object of `C08_chunk_indep_ops`) run on the exact-n reader over the same bytes —
@@ -183,6 +182,14 @@ structure HdrPost (d : DecHist.Dec) (s : St) (h : DecProg.Hdr) (d' : DecHist.Dec
   qerr : s1.q.err = none
   small : h.dataSize < 4294967296
   bytes : DecApi.IsBytes s1.rest
+  crc : d'.st.crc = 0
+  defs : d'.st.defs = d.st.defs
+  descs : d'.st.descs = d.st.descs
+  qts : s1.q.ts = s.q.ts
+  qoff : s1.q.lastOff = s.q.lastOff
+  qacc : s1.q.acc = s.q.acc
+  qmsgs : s1.q.msgs = s.q.msgs
+  qfid : s1.q.fileId = s.q.fileId
 
 /-- `decodeFileHeaderOnce` inside a call: (C)'s `headerOnce` on a state whose stream is what (D')'s exact-n reader still
 holds, against (D')'s `headerOnce`, for every client -/
@@ -191,7 +198,7 @@ theorem headerOnce_link {α : Type} (chk : Bool) (d : DecHist.Dec) (onFirst : RE
     (hchk : s.o.chk = chk) (herr : s.q.err = none) (hcrc : s.q.crc16 = 0) (hcur : s.q.cur = 0) (hb : DecApi.IsBytes s.rest)
     (hhdr : match d.hdr with
       | none => s.q.hdrDone = false
-      | some h => s.q.hdrDone = true ∧ s.q.hdr = hdrOf h ∧ d.st.cur = 0 ∧ h.dataSize < 4294967296) :
+      | some h => s.q.hdrDone = true ∧ s.q.hdr = hdrOf h ∧ d.st.cur = 0 ∧ h.dataSize < 4294967296 ∧ d.st.crc = 0) :
     match headerOnce s with
     | .ok s1 => ∃ h d', HdrPost d s h d' s1 ∧
         runExact (DecHist.headerOnce chk d onFirst onErr k) s.rest = runExact (k h d') s1.rest
@@ -205,9 +212,9 @@ theorem headerOnce_link {α : Type} (chk : Bool) (d : DecHist.Dec) (onFirst : RE
   cases hd : d.hdr with
   | some h =>
     rw [hd] at hhdr
-    obtain ⟨h1, h2, h3, h4⟩ := hhdr
+    obtain ⟨h1, h2, h3, h4, h5⟩ := hhdr
     simp only [h1, if_true, herr]
-    refine ⟨h, d, ⟨hd, rfl, rfl, rfl, rfl, h3, rfl, ?_, ?_, rfl, rfl, h2, h1, hcur, hcrc, herr, h4, hb⟩, rfl⟩
+    refine ⟨h, d, ⟨hd, rfl, rfl, rfl, rfl, h3, rfl, ?_, ?_, rfl, rfl, h2, h1, hcur, hcrc, herr, h4, hb, h5, rfl, rfl, rfl, rfl, rfl, rfl, rfl⟩, rfl⟩
     · intro hn; rw [hd] at hn; cases hn
     · intro _; exact ⟨rfl, rfl⟩
   | none =>
@@ -249,7 +256,7 @@ theorem headerOnce_link {α : Type} (chk : Bool) (d : DecHist.Dec) (onFirst : RE
         rw [hB] at he
         cases he
         refine ⟨_, _, ?_, rfl⟩
-        refine ⟨rfl, rfl, rfl, rfl, rfl, rfl, rfl, fun _ => ⟨rfl, ?_⟩, fun hn => absurd hd hn, rfl, rfl, rfl, rfl, hcur, rfl, herr, hds, ?_⟩
+        refine ⟨rfl, rfl, rfl, rfl, rfl, rfl, rfl, fun _ => ⟨rfl, ?_⟩, fun hn => absurd hd hn, rfl, rfl, rfl, rfl, hcur, rfl, herr, hds, ?_, rfl, rfl, rfl, rfl, rfl, rfl, rfl, rfl⟩
         · show rest.length < s.rest.length
           rw [hok.2.2.2.1, List.length_drop]; have := hok.1; have := hok.2.2.1; omega
         · show DecApi.IsBytes rest
@@ -371,24 +378,48 @@ structure Rel (o : Opts) (d : DecHist.Dec) (a : Api) : Prop where
   hm : d.hdr ≠ none → d.moved = true
   hdr : match d.hdr with
     | none => a.d.q.hdrDone = false
-    | some h => a.d.q.hdrDone = true ∧ a.d.q.hdr = hdrOf h ∧ d.st.cur = 0 ∧ h.dataSize < 4294967296
+    | some h => a.d.q.hdrDone = true ∧ a.d.q.hdr = hdrOf h ∧ d.st.cur = 0 ∧ h.dataSize < 4294967296 ∧ d.st.crc = 0
+  small : a.d.rest.length < 4294967296
+  look : a.d.look = {}
+  qts : a.d.q.ts = 0
+  qoff : a.d.q.lastOff = 0
+  qacc : a.d.q.acc = []
+  qmsgs : a.d.q.msgs = []
+  qfid : a.d.q.fileId = none
+  defs : d.st.defs = []
+  descs : d.st.descs = []
+  /-- the events so far are those of completed `Decode` calls: the reconstruction `apiOf` stands at a sequence boundary -/
+  evs : ∃ tt done, d.st.evs.reverse.foldl iStep { t := St.fresh o [] } = { t := tt, done := done, pend := [], bad := false } ∧
+    tt.o = o ∧ tt.q = {} ∧ tt.look = {}
 
-/-- the calls that do not enter the record loop of a sequence -/
-def noRec : DecHist.Op → Bool
+/-- the calls the link covers: everything but `PeekFileId`, `DecodeWithContext` cancelled while it runs, and `CheckIntegrity` -/
+def linked : DecHist.Op → Bool
+  | .decode => true
+  | .decodeCtx _ => true
   | .peekHeader => true
   | .discard => true
   | .next => true
-  | .decodeCtx true => true
   | _ => false
 
-theorem Rel.new (o : Opts) (bs : List Nat) (hb : DecApi.IsBytes bs) : Rel o { chk := o.chk } (Api.fresh o bs) :=
-  ⟨rfl, rfl, rfl, rfl, hb, rfl, rfl, rfl, fun h => absurd rfl h, rfl⟩
+theorem Rel.new (o : Opts) (bs : List Nat) (hb : DecApi.IsBytes bs) (hlen : bs.length < 4294967296) :
+    Rel o { chk := o.chk } (Api.fresh o bs) :=
+  ⟨rfl, rfl, rfl, rfl, hb, rfl, rfl, rfl, fun h => absurd rfl h, rfl, hlen, rfl, rfl, rfl, rfl, rfl, rfl, rfl, rfl,
+    ⟨St.fresh o [], [], rfl, rfl, rfl, rfl⟩⟩
 
 /-- after a successful `decodeFileHeaderOnce` inside a call that leaves the decoder behind the header -/
 theorem Rel.afterHeader {o : Opts} {d : DecHist.Dec} {a : Api} (hr : Rel o d a) {h : DecProg.Hdr} {d' : DecHist.Dec} {s1 : St}
     (hp : HdrPost d a.d h d' s1) (r : DecHist.OpRes) : Rel o { d' with res := r :: d'.res } (a.advance s1) := by
+  have hlen1 : s1.rest.length ≤ a.d.rest.length := by
+    by_cases hn : d.hdr = none
+    · have := (hp.fresh hn).2; omega
+    · rw [(hp.old hn).2]; exact Nat.le_refl _
   refine ⟨by show s1.o = o; rw [hp.o, hr.opts], by show d'.chk = o.chk; rw [hp.chk, hr.chk], hp.qerr,
-    by show d'.err = none; rw [hp.err, hr.derr], hp.bytes, ?_, hp.qcur, hp.qcrc, ?_, ?_⟩
+    by show d'.err = none; rw [hp.err, hr.derr], hp.bytes, ?_, hp.qcur, hp.qcrc, ?_, ?_,
+    by show s1.rest.length < _; have := hr.small; omega, by show s1.look = {}; rw [hp.look, hr.look],
+    by show s1.q.ts = 0; rw [hp.qts, hr.qts], by show s1.q.lastOff = 0; rw [hp.qoff, hr.qoff],
+    by show s1.q.acc = []; rw [hp.qacc, hr.qacc], by show s1.q.msgs = []; rw [hp.qmsgs, hr.qmsgs],
+    by show s1.q.fileId = none; rw [hp.qfid, hr.qfid], by show d'.st.defs = []; rw [hp.defs, hr.defs],
+    by show d'.st.descs = []; rw [hp.descs, hr.descs], by show ∃ tt done, d'.st.evs.reverse.foldl _ _ = _ ∧ _; rw [hp.evs]; exact hr.evs⟩
   · show d'.moved = !(a.n + (a.d.rest.length - s1.rest.length) == 0)
     by_cases hn : d.hdr = none
     · obtain ⟨h1, h2⟩ := hp.fresh hn
@@ -406,7 +437,7 @@ theorem Rel.afterHeader {o : Opts} {d : DecHist.Dec} {a : Api} (hr : Rel o d a) 
     · rw [(hp.old hn).1]; exact hr.hm hn
   · show match d'.hdr with | none => _ | some h => _
     rw [hp.hdr]
-    exact ⟨hp.qdone, hp.qhdr, hp.cur, hp.small⟩
+    exact ⟨hp.qdone, hp.qhdr, hp.cur, hp.small, hp.crc⟩
 
 theorem hdrFail_res (d : DecHist.Dec) (ops : List DecHist.Op) (e : DecProg.Err) (r : Bytes) (a : Api) (ha : a.d.q.err = some (errC e)) :
     (runExact (DecHist.hdrFail d ops e) r).res.map tokH = d.res.reverse.map tokH ++ Tok.err (errC e) :: toksC a (ops.map apiOp) := by
@@ -425,12 +456,147 @@ theorem failOp_res (d : DecHist.Dec) (ops : List DecHist.Op) (st : DecProg.St) (
   simp [tokH, errH]
 
 theorem Rel.withRes {o : Opts} {d : DecHist.Dec} {a : Api} (hr : Rel o d a) (r : List DecHist.OpRes) : Rel o { d with res := r } a :=
-  ⟨hr.opts, hr.chk, hr.err, hr.derr, hr.bytes, hr.moved, hr.cur, hr.crc, hr.hm, hr.hdr⟩
+  ⟨hr.opts, hr.chk, hr.err, hr.derr, hr.bytes, hr.moved, hr.cur, hr.crc, hr.hm, hr.hdr, hr.small, hr.look, hr.qts, hr.qoff, hr.qacc,
+    hr.qmsgs, hr.qfid, hr.defs, hr.descs, hr.evs⟩
 
 theorem step_lift_next (a : Api) : DecApi.step a .next =
     (a.advance (stepNext (a.n == 0) a.d).1, (stepNext (a.n == 0) a.d).2.1, (stepNext (a.n == 0) a.d).2.2) := rfl
 
 theorem opts_restore (o : Opts) : ({ ({ o with chk := false } : Opts) with chk := o.chk } : Opts) = o := by cases o; rfl
+
+
+theorem step_lift_decode (a : Api) : DecApi.step a .decode =
+    (a.advance (stepDecode a.d).1, (stepDecode a.d).2.1, (stepDecode a.d).2.2) := rfl
+
+/-- `Decode` / `DecodeWithContext` (context live) from corresponding states: header (once), the record loop
+(`messagesH_link`), the file CRC, `reset()`; `ih` = the remaining calls from corresponding states -/
+theorem decode_link (o : Opts) (hfac : FacOK o.fac) (hbt : facBtOK o.fac = true) (hfd : facFdOK o.fac = true) (fuelCi : Nat)
+    (ops : List DecHist.Op)
+    (ih : ∀ (d : DecHist.Dec) (a : Api), Rel o d a →
+      (runExact (DecHist.run fuelCi ops d) a.d.rest).res.map tokH = d.res.reverse.map tokH ++ toksC a (ops.map apiOp))
+    (d : DecHist.Dec) (a : Api) (hr : Rel o d a) :
+    (runExact (DecHist.headerOnce d.chk d (fun e => DecHist.hdrFail d ops (.io e)) (fun e d => DecHist.hdrFail d ops e) fun h d =>
+        DecHist.messages (DecHist.failOp d ops) d.chk h.dataSize h.dataSize d.fileId d.st fun _ st =>
+          DecHist.fileCrc (DecHist.failOp d ops) d.chk st fun c =>
+            DecHist.run fuelCi ops (d.renew (.seq h.size h.protoVer h.profileVer h.dataSize h.crc c st.msgs :: st.evs) (.fit h c st.msgs)))
+      a.d.rest).res.map tokH =
+    d.res.reverse.map tokH ++ tokC (decodeBody a.d).2.1 :: toksC (a.advance (decodeBody a.d).1) (ops.map apiOp) := by
+  have hlk := headerOnce_link d.chk d (fun e => DecHist.hdrFail d ops (.io e)) (fun e d => DecHist.hdrFail d ops e) (fun h d =>
+        DecHist.messages (DecHist.failOp d ops) d.chk h.dataSize h.dataSize d.fileId d.st fun _ st =>
+          DecHist.fileCrc (DecHist.failOp d ops) d.chk st fun c =>
+            DecHist.run fuelCi ops (d.renew (.seq h.size h.protoVer h.profileVer h.dataSize h.crc c st.msgs :: st.evs) (.fit h c st.msgs)))
+    a.d (by rw [hr.opts, hr.chk]) hr.err hr.crc hr.cur hr.bytes hr.hdr
+  cases hh : headerOnce a.d with
+  | ok s1 =>
+    rw [hh] at hlk
+    obtain ⟨h, d', hp, hrun⟩ := hlk
+    rw [hrun, decodeBody_eq a.d s1 hh]
+    obtain ⟨tt, done, hfold, hto, htq, htl⟩ := hr.evs
+    have hs1o : s1.o = o := by rw [hp.o, hr.opts]
+    have hlen1 : s1.rest.length ≤ a.d.rest.length := by
+      by_cases hn : d.hdr = none
+      · have := (hp.fresh hn).2; omega
+      · rw [(hp.old hn).2]; exact Nat.le_refl _
+    have hchk1 : d'.chk = s1.o.chk := by rw [hp.chk, hr.chk, hs1o]
+    have hsm := hr.small
+    have hcd : CD d'.chk s1 d'.st := ⟨hchk1.symm, by rw [hp.cur, hp.qcur], by rw [hp.crc, hp.qcrc], by rw [hp.qcur]; omega, hp.bytes⟩
+    have hlook1 : s1.look = {} := by rw [hp.look, hr.look]
+    have hT : Tables s1 d'.st := ⟨by rw [hp.defs, hr.defs, hlook1]; rfl, by rw [hp.descs, hr.descs, hlook1]; rfl⟩
+    have hF : Follows o s1 d'.st done [] :=
+      ⟨tt, by rw [hp.evs]; exact hfold, ⟨by rw [hto, hs1o], ⟨by rw [htl, hlook1], by rw [htl, hlook1], by rw [htl, hlook1]; rfl⟩,
+        by rw [htq, hp.qts, hr.qts], by rw [htq, hp.qoff, hr.qoff], by rw [htq, hp.qacc, hr.qacc], by rw [htq, hp.qmsgs, hr.qmsgs],
+        by rw [htq, hp.qfid, hr.qfid]⟩⟩
+    have hi : Inv s1 := ⟨hp.bytes, by rw [hlook1]; exact DefsOK.empty, by rw [hp.qcur]; decide, by rw [hs1o]; exact hfac⟩
+    have hml := messagesH_link (DecHist.failOp d' ops) (fun _ st =>
+          DecHist.fileCrc (DecHist.failOp d' ops) d'.chk st fun c =>
+            DecHist.run fuelCi ops (d'.renew (.seq h.size h.protoVer h.profileVer h.dataSize h.crc c st.msgs :: st.evs) (.fit h c st.msgs)))
+      o d'.chk h.dataSize done (fuelOf s1) h.dataSize d'.fileId s1 d'.st [] hcd hT hF hi (by rw [hs1o]; exact hbt)
+      (by rw [hs1o]; exact hfd) (by rw [hp.qhdr]; rfl) (by omega) (by simp [fuelOf])
+    have hsat := decodeMessages_sat (fuelOf s1) s1 hi (by simp [fuelOf])
+    rcases hdm : decodeMessages (fuelOf s1) s1 with ⟨s2, evs2, r⟩
+    rw [hdm] at hml hsat
+    obtain ⟨_, hi2, hr2, _⟩ := hsat
+    dsimp only at hi2 hr2 hml
+    obtain ⟨cc, hcc, _, _, ho2, hh2, _, _⟩ := hr2
+    have hlen2 : s2.rest.length ≤ s1.rest.length := by rw [hcc, List.length_append]; omega
+    cases r with
+    | panic => exact hml.elim
+    | hang => exact hml.elim
+    | err e =>
+      obtain ⟨st', e', r', he, hrun2⟩ := hml
+      rw [hrun2]
+      subst he
+      rw [failOp_res d' ops st' e' r' (a.advance (release { s2 with q := { s2.q with err := some (errC e') } })) rfl]
+      simp [decodeTail, DecApi.fail, hp.res, tokC]
+    | ok u =>
+      cases u
+      obtain ⟨f, st2, hcd2, hT2, hF2, hrun2⟩ := hml
+      rw [hrun2]
+      unfold DecHist.fileCrc
+      simp only [decodeTail]
+      rw [decodeCRC_eq]
+      have hchk2 : d'.chk = s2.o.chk := by rw [hchk1, ho2]
+      match hrest2 : s2.rest with
+      | [] =>
+        rw [runExact_read_short _ _ _ (by simp)]
+        dsimp only
+        rw [failOp_res d' ops st2 (.io _) [] (a.advance (release { s2 with q := { s2.q with err := some .eof } })) rfl]
+        simp [DecApi.fail, hp.res, tokC, errC]
+      | [_] =>
+        rw [runExact_read_short _ _ _ (by simp)]
+        dsimp only
+        rw [failOp_res d' ops st2 (.io _) [] (a.advance (release { s2 with q := { s2.q with err := some .eof } })) rfl]
+        simp [DecApi.fail, hp.res, tokC, errC]
+      | lo :: hi :: r3 =>
+        rw [runExact_read_ok _ _ _ (by simp)]
+        dsimp only
+        have hle : DecProg.le16 (List.take 2 (lo :: hi :: r3)) = lo + 256 * hi := rfl
+        have hd2 : List.drop 2 (lo :: hi :: r3) = r3 := rfl
+        rw [hle, hd2, hcd2.crc, hchk2]
+        by_cases hc : s2.o.chk = true ∧ s2.q.crc16 ≠ lo + 256 * hi
+        · rw [if_pos hc, if_pos hc]
+          rw [failOp_res d' ops st2 .crc r3 (a.advance (release { s2 with q := { s2.q with err := some .crc } })) rfl]
+          simp [DecApi.fail, hp.res, tokC, errC]
+        · rw [if_neg hc, if_neg hc]
+          dsimp only
+          obtain ⟨t', hf', hsh'⟩ := hF2
+          have hr3 : r3.length + 2 = s2.rest.length := by rw [hrest2]; simp
+          have hrn : Rel o (d'.renew (.seq h.size h.protoVer h.profileVer h.dataSize h.crc (lo + 256 * hi) st2.msgs :: st2.evs)
+              (.fit h (lo + 256 * hi) st2.msgs))
+              (a.advance (release (resetSeq { s2 with rest := r3, q := { s2.q with crc := lo + 256 * hi, crc16 := 0 } }))) := by
+            refine ⟨by show s2.o = o; rw [ho2, hs1o], by show d'.chk = o.chk; rw [hp.chk, hr.chk], rfl, rfl, ?_, ?_, rfl, rfl,
+              fun hn => absurd rfl hn, rfl, ?_, rfl, rfl, rfl, rfl, rfl, rfl, rfl, rfl, ?_⟩
+            · show DecApi.IsBytes r3
+              have := hi2.1
+              rw [hrest2] at this
+              exact fun x hx => this x (by simp [hx])
+            · show true = !(a.n + (a.d.rest.length - r3.length) == 0)
+              have : (a.n + (a.d.rest.length - r3.length) == 0) = false := by
+                rw [beq_eq_false_iff_ne]; omega
+              rw [this]; rfl
+            · show r3.length < 4294967296
+              omega
+            · refine ⟨_, _, fold_snoc_seq _ _ _ _ _ hf' h.size h.protoVer h.profileVer h.dataSize h.crc (lo + 256 * hi) st2.msgs, ?_, rfl, rfl⟩
+              show t'.o = o
+              rw [hsh'.o, ho2, hs1o]
+          have := ih _ _ hrn
+          rw [show (a.advance (release (resetSeq { s2 with rest := r3, q := { s2.q with crc := lo + 256 * hi, crc16 := 0 } }))).d.rest = r3 from rfl] at this
+          rw [this]
+          simp [DecHist.Dec.renew, hp.res, tokH, tokC, hh2, hp.qhdr]
+  | err e =>
+    rw [hh] at hlk
+    obtain ⟨_, hcase⟩ := hlk
+    unfold decodeBody
+    rw [hh]
+    rcases hcase with ⟨_, he, hrun⟩ | ⟨e', r, he, _, hrun⟩
+    · rw [hrun]; subst he
+      rw [hdrFail_res d ops (.io .eof) [] (a.advance (failHeader a.d (Res.err .eof : Res St)).1) rfl]
+      rfl
+    · rw [hrun]; subst he
+      rw [hdrFail_res _ ops e' r (a.advance (failHeader a.d (Res.err (errC e') : Res St)).1) rfl]
+      rfl
+  | panic => rw [hh] at hlk; exact hlk.elim
+  | hang => rw [hh] at hlk; exact hlk.elim
 
 /-! ### the sequencing theorem -/
 
@@ -442,8 +608,9 @@ theorem step_lift_ctx (a : Api) (c : Bool) : DecApi.step a (.decodeCtx c) =
     (a.advance (stepDecodeCtx c a.d).1, (stepDecodeCtx c a.d).2.1, (stepDecodeCtx c a.d).2.2) := rfl
 
 /-- **state correspondence after each call**: from corresponding states, the results of the remaining calls correspond -/
-theorem run_link (o : Opts) (fuelCi : Nat) : ∀ (ops : List DecHist.Op) (d : DecHist.Dec) (a : Api), Rel o d a →
-    (∀ op ∈ ops, noRec op = true) →
+theorem run_link (o : Opts) (hfac : FacOK o.fac) (hbt : facBtOK o.fac = true) (hfd : facFdOK o.fac = true) (fuelCi : Nat) :
+    ∀ (ops : List DecHist.Op) (d : DecHist.Dec) (a : Api), Rel o d a →
+    (∀ op ∈ ops, linked op = true) →
     (runExact (DecHist.run fuelCi ops d) a.d.rest).res.map tokH = d.res.reverse.map tokH ++ toksC a (ops.map apiOp) := by
   intro ops
   induction ops with
@@ -452,7 +619,7 @@ theorem run_link (o : Opts) (fuelCi : Nat) : ∀ (ops : List DecHist.Op) (d : De
     simp [DecHist.run, runExact, DecHist.finish, hr.derr, toksC_nil]
   | cons op ops ih =>
     intro d a hr hsub
-    have hsub' : ∀ op ∈ ops, noRec op = true := fun x hx => hsub x (by simp [hx])
+    have hsub' : ∀ op ∈ ops, linked op = true := fun x hx => hsub x (by simp [hx])
     have hop := hsub op (by simp)
     unfold DecHist.run
     rw [hr.derr]
@@ -493,7 +660,13 @@ theorem run_link (o : Opts) (fuelCi : Nat) : ∀ (ops : List DecHist.Op) (d : De
       | hang => rw [hh] at hlk; exact hlk.elim
     | decodeCtx c =>
       cases c with
-      | false => cases hop
+      | false =>
+        dsimp only [apiOp]
+        rw [step_lift_ctx]
+        unfold stepDecodeCtx
+        rw [hr.err]
+        dsimp only
+        exact decode_link o hfac hbt hfd fuelCi ops (fun d a h => ih d a h hsub') d a hr
       | true =>
         dsimp only [apiOp]
         rw [step_lift_ctx]
@@ -549,13 +722,17 @@ theorem run_link (o : Opts) (fuelCi : Nat) : ∀ (ops : List DecHist.Op) (d : De
             dsimp only
             have hr2 : Rel o (d'.renew st'.evs .done) (a.advance { o := { s2.o with chk := a.d.o.chk }, rest := s2.rest.drop 2 }) := by
               refine ⟨?_, by show d'.chk = o.chk; rw [hp.chk, hr.chk], rfl, rfl, IsBytes.drop' (hb2 hp.bytes) 2, ?_, rfl, rfl,
-                fun hn => absurd rfl hn, rfl⟩
+                fun hn => absurd rfl hn, rfl, ?_, rfl, rfl, rfl, rfl, rfl, rfl, rfl, rfl, ?_⟩
               · show ({ s2.o with chk := a.d.o.chk } : Opts) = o
                 rw [ho2, hp.o, e0o, opts_restore, hr.opts]
               · show true = !(a.n + (a.d.rest.length - (s2.rest.drop 2).length) == 0)
                 have : (a.n + (a.d.rest.length - (s2.rest.drop 2).length) == 0) = false := by
                   rw [beq_eq_false_iff_ne, List.length_drop]; omega
                 rw [this]; rfl
+              · show (s2.rest.drop 2).length < 4294967296
+                rw [List.length_drop]; have := hr.small; omega
+              · show ∃ tt done, st'.evs.reverse.foldl _ _ = _ ∧ _
+                rw [hevs, hp.evs]; exact hr.evs
             have := ih _ _ hr2 hsub'
             rw [show (a.advance ({ o := { s2.o with chk := a.d.o.chk }, rest := s2.rest.drop 2 } : St)).d.rest = s2.rest.drop 2 from rfl] at this
             rw [this]
@@ -600,7 +777,8 @@ theorem run_link (o : Opts) (fuelCi : Nat) : ∀ (ops : List DecHist.Op) (d : De
         dsimp only
         rw [Api.advance_same]
         have hr2 : Rel o { d with err := none, res := .bool true :: d.res } a :=
-          ⟨hr.opts, hr.chk, hr.err, rfl, hr.bytes, hr.moved, hr.cur, hr.crc, hr.hm, hr.hdr⟩
+          ⟨hr.opts, hr.chk, hr.err, rfl, hr.bytes, hr.moved, hr.cur, hr.crc, hr.hm, hr.hdr, hr.small, hr.look, hr.qts, hr.qoff, hr.qacc,
+            hr.qmsgs, hr.qfid, hr.defs, hr.descs, hr.evs⟩
         rw [ih _ _ hr2 hsub']
         simp [tokH, tokC]
       · have hmv' : d.moved = true := by cases hd : d.moved <;> simp_all
@@ -637,7 +815,13 @@ theorem run_link (o : Opts) (fuelCi : Nat) : ∀ (ops : List DecHist.Op) (d : De
             simp [tokH, tokC, hends]
         | panic => rw [hh] at hlk; exact hlk.elim
         | hang => rw [hh] at hlk; exact hlk.elim
-    | decode => cases hop
+    | decode =>
+      dsimp only [apiOp]
+      rw [step_lift_decode]
+      unfold stepDecode
+      rw [hr.err]
+      dsimp only
+      exact decode_link o hfac hbt hfd fuelCi ops (fun d a h => ih d a h hsub') d a hr
     | decodeCtxAt k => cases hop
     | peekFileId => cases hop
     | checkIntegrity => cases hop
